@@ -215,6 +215,9 @@ descend:
 		if colonSlot(s.parent.K, s.field) && rightEdgeErrWrap(orig) {
 			return class + ":errwrap-before-colon", detail
 		}
+		if s.parent.K == "CaseClause" && s.field == "List" && rightEdgeErrWrap(orig) {
+			return class + ":errwrap-before-case-colon", detail // the same hazard at the ':' of a case clause (own code path)
+		}
 		if elementSlot(s.parent, s.field) && leftEdgeBrace(orig) {
 			return class + ":brace-literal-element", detail
 		}
